@@ -211,6 +211,7 @@ pub fn gen_exec_block(r: &mut Rng, nparams: usize, types: &mut Option<Vec<(u8, u
         bind,
         values,
         raw: None,
+                    stale_types: None,
     }
 }
 
